@@ -38,6 +38,8 @@ THEOREMS = [
     "Opacus.C11.ghost_double_release_counterexample",
     "Opacus.C11.ghost_no_double_release_partial",
     "Opacus.C11.accumulated_kept",
+    # the tie to the source: Generated/ZeroGrad.lean is re-translated from both DP optimizers' zero_grad on every run
+    "Opacus.C11.generated_zero_grad_eq_model",
 ]
 RULE = (
     "case = (optimizer kind std|ghost, accumulation allowed?, accountant rdp|gdp, op sequence over {fwdbwd n, step, optimizer.zero_grad, "
@@ -45,6 +47,7 @@ RULE = (
     "non-trivial iff the real run contains at least one released step AND at least one op whose outcome is an error or a skipped step; distinct by (config, op sequence)"
 )
 TRUSTED = [
+    "the translator vharness/props/c11_trans.py (Python `ast` -> the effect of zero_grad on one parameter's (grad_sample, summed_grad) given _is_last_step_skipped, for DPOptimizer and DPOptimizerFastGradientClipping; subset in its docstring, anything else is reported as a broken tie) is trusted to render zero_grad faithfully; every other step of the protocol machine is tied by the behavioural correspondence",
     "tokens abstract gradient VALUES: clipping arithmetic is C02/C03's business; here per-sample gradients are one-hot rows with clip factor exactly 1",
     "one optimised parameter tensor (flags are set and checked per parameter in the same loop; hooks give every parameter its grad_sample in the same backward)",
 ]
@@ -146,7 +149,14 @@ def detect_variant():
     return ("asCoded" if rel == [[0, 0, 1, 1]] else "repaired"), real
 
 
+def regenerate(ctx):
+    from .. import regen
+    from . import c11_trans as T
+    regen.regenerate(ctx, T, "Opacus.Generated.ZeroGrad", "zero_grad (optimizers/optimizer.py, optimizer_fast_gradient_clipping.py)")
+
+
 def run(ctx):
+    regenerate(ctx)
     with rig.default_dtype(torch.float64):
         variant, wreal = detect_variant()
         ctx.variant["ghost_reaccumulate"] = variant
